@@ -1027,7 +1027,7 @@ def matrix_history(rng, hid, t, fn, kind, var=0):
 
     def call(big):
         """entry points with ONE sample size: small in the first call, LARGE in the second; lists of sizes always hold both"""
-        one = large() if big else small()
+        one = 10 ** 9 if big else small()          # the largest size for the single-size entry points (the request costs the same for every n)
         h = {"op": "call", "target": t, "fn": fn, "sog": sog, "S": S}
         if t == "dg":
             if fn == "data": h.update(pd=rng.randrange(len(PDS)), n=20)
@@ -1863,6 +1863,7 @@ FUNC_THM = {"calc_empi_dist_sequence": "gen_calc_empi_dist_sequence_eq", "to_str
             "generate_empi_dist_sequence_from_prob_dist": "gen_generate_empi_dist_sequence_eq",
             "generate_empi_dists_sequence_from_prob_dists": "gen_generate_empi_dists_sequence_eq",
             "generate_dataset_from_prob_dists": "gen_generate_dataset_eq", "generate_data_from_prob_dist": "gen_generate_data_eq",
+            "execute_random_sampling": "gen_execute_random_sampling_eq", "calc_empi_dists_sequence": "gen_calc_empi_dists_sequence_eq",
             "generate_empi_dist": "gen_tomo_generate_empi_dist_eq", "generate_empi_dists": "gen_tomo_generate_empi_dists_eq",
             "generate_empi_dists_sequence": "gen_tomo_generate_empi_dists_sequence_eq"}
 
